@@ -507,6 +507,13 @@ Definition gp_grad_H (al u w : list T) : gp_data :=
   let r := map (fun z => (r1 / zeta) * z) w in
   GpD gu gw pu pw q r d1 d2.
 
+(** [update_scaling] of the generalised power cone: refuses ([None] = returns false, state
+    untouched) unless zeta = phi - |w|^2 > 0 ([is_dual_interior_for_scaling]); otherwise stores
+    the data of [update_dual_grad_H] and mu.  The strategy argument is ignored (dual scaling). *)
+Definition gp_update_scaling (al u w : list T) (mu : T) : option (gp_data * T) :=
+  let zeta := gp_phi_dual al u - sumsql w in
+  if 0 <? zeta then Some (gp_grad_H al u w, mu) else None.
+
 (** [mul_Hs]: y = mu (D + p p' - q q' - r r') x *)
 Definition gp_mul_Hs (d : gp_data) (mu : T) (xu xw : list T) : list T * list T :=
   let coef_p := dotl (gp_p_u d ++ gp_p_w d) (xu ++ xw) in
